@@ -260,6 +260,7 @@ fn main() {
          big_pairs (exhaustive): 54 state-setting sequences carrying 2^16 / 2^31-49 / 2^31-1 (margins, scroll regions, origin mode, far tab stop, far cursor, saved cursor, font selection) x {fresh, 90-line scrollback} x \
          63 finals x 8 intermediates x parameter {none, 1, 25, 2^31-1}, then the same tail plus restore-cursor. \
          exhaustive_3_tokens: every sequence of 1..=3 tokens of the ~90-token control-function alphabet (the one C09 enumerates) on 80x25 and 2x2, each on a fresh screen and after two lines of text, ANSI emulation. \
+         macro_chains: chains of 1..20000 distinct hex-encoded macros, macro k invoking macro k+1 through CSI or from inside a DCS string, ids from 0 / 50 / 10^6, then one invocation. \
          Non-trivial: the stream contains >= 2 control lead-in bytes of its emulation AND touched the screen (row allocated, cursor moved or height grew); distinct by hash of (emulation,size,shape,bytes).",
     );
     eng.assume("built with overflow checks and debug assertions ON at opt-level 2 (profile `checked`): panics that only a debug build of a front end would hit count as well");
@@ -300,6 +301,20 @@ fn main() {
             let mut data = if with_text { b"some text\r\nmore text\r\n".to_vec() } else { Vec::new() };
             data.extend(stream::render(&toks, w as i32, h as i32, 9999));
             Case { emu: 0, w, h, shape: (k % 3) as u8, data: Bytes(data) }
+        },
+        check,
+        classify,
+    );
+    // chains of distinct macros (no cycle): the nesting limit, not cycle detection, is what bounds the stack
+    const CHAIN_LENGTHS: [u32; 14] = [1, 2, 7, 8, 9, 10, 63, 64, 65, 150, 400, 1000, 5000, 20000];
+    eng.enumerated_with_class(
+        PartCfg::new("macro_chains", 0, 0).isolated().timeout_ms(30_000).heapcap_is_violation(false).exhaustive(true),
+        CHAIN_LENGTHS.len() as u64 * 3 * 2,
+        |i| {
+            let n = CHAIN_LENGTHS[(i % 14) as usize];
+            let base = [0u32, 50, 1_000_000][((i / 14) % 3) as usize];
+            let in_dcs = i / 42 == 1;
+            Case { emu: 0, w: 80, h: 25, shape: 1, data: Bytes(stream::macro_chain(n, base, in_dcs)) }
         },
         check,
         classify,
